@@ -157,7 +157,7 @@ func c05One(k *stationCase) string {
 // C05: 1005/1006 decode exactly and display to 0.1 mm.
 func C05(r *ev.Run) {
 	thorough := r.Tier == "thorough"
-	r.Rule = "message types 1005 and 1006 x station id {0,1,0xAAA,4095} x ITRF {0,1,63} x every value of each reserved bit group x coordinates from the boundary set {-2^37, -2^37+1, -1, 0, 1, 2^37-1, +-2^k (k=0..36), 0x1555555555, -0x1555555556}: full product for one axis with the other two from {min,-1,0,max}, rotated over the three axes; dense sweeps of every integer in +-2^12 (quick) / +-2^17 (thorough) around 0, +-2^37 and each +-2^k for the display clause; height {0,1,0x5555,0x8000,0xFFFF}; 0..3 trailing payload bytes; every truncation length of the payload (re-framed) and every prefix of the raw frame bytes from 0 bytes up handed straight to the decoders; wrong-type payloads (1005 layout typed 1006, 1006 typed 1005, types 1004 and 1007); both log levels; direct decoders and handler.GetMessage+String. Non-trivial = distinct (type, field vector) cases"
+	r.Rule = "message types 1005 and 1006 x station id {0,1,0xAAA,4095} x ITRF {0,1,63} x every value of each reserved bit group x coordinates from the boundary set {-2^37, -2^37+1, -1, 0, 1, 2^37-1, +-2^k (k=0..36), 0x1555555555, -0x1555555556}: full product for one axis with the other two from {min,-1,0,max}, rotated over the three axes; dense sweeps of every integer in +-2^12 (quick) / +-2^17 (thorough) around 0, +-2^37 and each +-2^k for the display clause; height {0,1,0x5555,0x8000,0xFFFF}; 0..3 trailing payload bytes with each height, and every amount of trailing padding up to the 1023-byte maximum payload; every truncation length of the payload (re-framed) and every prefix of the raw frame bytes from 0 bytes up handed straight to the decoders; wrong-type payloads (1005 layout typed 1006, 1006 typed 1005, types 1004 and 1007); both log levels; direct decoders and handler.GetMessage+String. Non-trivial = distinct (type, field vector) cases"
 	r.Assumptions = []string{"the display oracle is the exact decimal sign int(|v|/10000).%04d(|v| mod 10000) computed in integers", "a 1006-layout payload typed 1005 counts as a 1005 with trailing bytes (accepted); a 1005-layout payload typed 1006 is too short (rejected)"}
 	const maxC = int64(1)<<37 - 1
 	const minC = -(int64(1) << 37)
@@ -198,6 +198,14 @@ func C05(r *ev.Run) {
 					add(stationCase{S: ref.Station{Type: t, ID: 7, ITRF: 2, X: 38903500000, Y: -1234, Z: 50000, Height: hgt}, WithHeight: wh, Extra: extra, Truncate: -1, Debug: dbg})
 				}
 			}
+		}
+		// every legal amount of trailing padding: payload lengths up to the 1023-byte maximum
+		base := 19
+		if wh {
+			base = 21
+		}
+		for extra := 4; base+extra <= 1023; extra++ {
+			add(stationCase{S: ref.Station{Type: t, ID: 4095, ITRF: 63, X: -38903500000, Y: 1234, Z: -50000, Height: 0x8001}, WithHeight: wh, Extra: extra, Truncate: -1, Debug: extra%2 == 0})
 		}
 		// every truncation length
 		for cut := 1; cut <= 24; cut++ {
